@@ -213,7 +213,7 @@ class Ctx:
             self.commons_used[name] = (t, self.prog.common_arrays[self.u.name].get(name))
         elif name not in self.u.args:
             self.locals.setdefault(name, t)
-        isd = name in self.u.args and name in self.out_args
+        isd = name in self.u.args and name in self.out_args and name not in self.u.arrays   # an array dummy is a pointer already
         return E('var', name=name, extra='local', isd=isd), t
 
 
